@@ -111,6 +111,7 @@ class World:
         self.log = log
         self.zk = zkmod.SimZk(clock, log) if resume is None \
             else resume['zk'].clone_tree(clock)
+        self.zk.order_seed = config.get('child_order')
         self.admin = self.zk.connect('admin')
         self.node = self.zk.connect('node')
         self.api = Api(self)
@@ -600,6 +601,7 @@ def make_config(prop, tier, rng):
         'svc_max': rng.choice([10, 3, 2])}
     cfg['recover_frac'] = 1.0 if big else 0.25
     cfg['conn_loss_points'] = None if big else 8
+    cfg['child_order'] = rng.getrandbits(32) if rng.random() < 0.5 else None
     return cfg
 
 
